@@ -1017,3 +1017,358 @@ Section Order.
       inversion H; subst. simpl. apply base_add_variable_ret in B as [BI [BN _]]. rewrite BI, BN. split; reflexivity.
   Qed.
 End Order.
+
+(* ------------------------------------------------------------------ np.array(nested sequence) fails only with ValueError *)
+Section OperandInd.
+  Variable P : operand -> Prop.
+  Hypothesis Hs : forall v, P (OScalar v).
+  Hypothesis Hq : forall k items, Forall P items -> P (OSeq k items).
+  Hypothesis Hr : forall a b c, P (ORange a b c).
+  Hypothesis Ha : forall sh dt cells, P (OArr sh dt cells).
+  Fixpoint operand_ind' (o : operand) : P o :=
+    match o with
+    | OScalar v => Hs v
+    | OSeq k items => Hq k items ((fix go (l : list operand) : Forall P l :=
+                                     match l with [] => Forall_nil P | x :: r => Forall_cons x (operand_ind' x) (go r) end) items)
+    | ORange a b c => Hr a b c
+    | OArr sh dt cells => Ha sh dt cells
+    end.
+End OperandInd.
+
+Lemma stack_err xs e : stack xs = Raise e -> e = ValueError.
+Proof.
+  unfold stack. destruct xs as [|[sh0 c0] r]; [discriminate|].
+  destruct (all_eq_shape sh0 ((sh0, c0) :: r)); intros H; inversion H; reflexivity.
+Qed.
+
+Definition go_list (its : list operand) : outcome (list (list nat * list pyval)) :=
+  (fix go (its : list operand) : outcome (list (list nat * list pyval)) :=
+     match its with
+     | [] => Ret []
+     | i :: r => match as_array i with
+                 | Raise e => Raise e
+                 | Ret x => match go r with Raise e => Raise e | Ret xs => Ret (x :: xs) end
+                 end
+     end) its.
+
+Lemma as_array_seq k items :
+  as_array (OSeq k items) = match go_list items with Raise e => Raise e | Ret xs => stack xs end.
+Proof. reflexivity. Qed.
+
+Lemma go_list_cons i r :
+  go_list (i :: r) = match as_array i with
+                     | Raise e => Raise e
+                     | Ret x => match go_list r with Raise e => Raise e | Ret xs => Ret (x :: xs) end
+                     end.
+Proof. reflexivity. Qed.
+
+Lemma go_list_err items :
+  Forall (fun o => forall e, as_array o = Raise e -> e = ValueError) items ->
+  forall e, go_list items = Raise e -> e = ValueError.
+Proof.
+  induction 1 as [|x r Hx Hr IHr]; intros e G; [discriminate|].
+  rewrite go_list_cons in G. destruct (as_array x) as [y|e1] eqn:A.
+  - destruct (go_list r) as [ys|e2] eqn:G2; [discriminate|]. inversion G; subst. apply IHr. reflexivity.
+  - inversion G; subst. apply Hx. reflexivity.
+Qed.
+
+Lemma as_array_err o : forall e, as_array o = Raise e -> e = ValueError.
+Proof.
+  induction o as [v|k items IH|a b c|sh dt cells] using operand_ind'; intros e H; try discriminate.
+  rewrite as_array_seq in H. destruct (go_list items) as [xs|e0] eqn:G.
+  - eapply stack_err. exact H.
+  - inversion H; subst e0. eapply go_list_err; eassumption.
+Qed.
+
+(* ================================================================== the totalisation defaults are unreachable *)
+(* `OtherError` marks behaviour outside the model.  Under the invariant it is produced by no operation, except the item
+   assignment obj[name, ...] = v addressed at a name that is NOT a variable (the guard class of the kept finding
+   unknown_name_accepted_refuted) - so no theorem above holds by virtue of a default branch. *)
+Section NoOther.
+  Variable pycast : dtype -> pyval -> outcome pyval.
+  Variable arrcast : dtype -> dtype -> pyval -> outcome pyval.
+  Variable infer : list pyval -> dtype.
+  Variable astype_dt : dtype -> list pyval -> dreq -> dtype.
+  Variable itemseq_exn : dtype -> exn.
+  Hypothesis HP : forall d c, pycast d c <> Raise OtherError.
+  Hypothesis HA : forall src d c, arrcast src d c <> Raise OtherError.
+  Hypothesis HI : forall d, itemseq_exn d <> OtherError.
+
+  Notation assign_inplace := (assign_inplace pycast arrcast).
+  Notation assign_item := (assign_item pycast arrcast itemseq_exn).
+  Notation setattr_var := (setattr_var pycast arrcast).
+  Notation set_rows_arr := (set_rows_arr pycast arrcast).
+  Notation set_rows_full := (set_rows_full pycast arrcast infer).
+  Notation values_setter := (values_setter pycast arrcast infer).
+  Notation obj_setattr := (obj_setattr pycast arrcast infer).
+  Notation add_attribute := (add_attribute pycast arrcast infer).
+  Notation setattr := (setattr pycast arrcast infer).
+  Notation setitem := (setitem pycast arrcast infer itemseq_exn).
+  Notation replace_values := (replace_values pycast arrcast infer itemseq_exn).
+  Notation base_add_variable := (base_add_variable pycast arrcast infer astype_dt).
+  Notation add_variable := (add_variable pycast arrcast infer astype_dt).
+  Notation step := (step pycast arrcast infer astype_dt itemseq_exn).
+  Notation natural := (natural pycast infer).
+
+  Lemma cast_all_no_other f cs : (forall c, f c <> Raise OtherError) -> cast_all f cs <> Raise OtherError.
+  Proof.
+    intros Hf. induction cs as [|c cs IH]; simpl; [discriminate|].
+    destruct (f c) as [c'|e] eqn:E; [|intros C; inversion C; subst; exact (Hf c E)].
+    destruct (cast_all f cs) as [r|e]; [discriminate|]. intros C. inversion C; subst. apply IH. reflexivity.
+  Qed.
+
+  Lemma write_cells_no_other f : (forall c, f c <> Raise OtherError) ->
+    forall ps cs d, snd (write_cells f ps cs d) <> Some OtherError.
+  Proof.
+    intros Hf. induction ps as [|p ps IH]; intros cs d; simpl; [discriminate|].
+    destruct cs as [|c cs]; [discriminate|].
+    destruct (f c) as [c'|e] eqn:E; [apply IH|]. simpl. intros C. inversion C; subst. exact (Hf c E).
+  Qed.
+
+  Lemma as_array_no_other o : as_array o <> Raise OtherError.
+  Proof. intros C. apply as_array_err in C. discriminate. Qed.
+
+  Lemma truthy_no_other o : truthy o <> Raise OtherError.
+  Proof. destruct o as [v|k items|a b c|sh dt cells]; simpl; try discriminate. destruct cells as [|c [|c2 r]]; discriminate. Qed.
+
+  Lemma assign_inplace_no_other v ps value : snd (assign_inplace v ps value) <> Some OtherError.
+  Proof.
+    unfold Container.assign_inplace.
+    assert (SEQ : forall r : outcome (list nat * list pyval), r <> Raise OtherError ->
+      snd (match r with
+           | Raise e => (v, Some e)
+           | Ret (sh, cells) =>
+               if (if list_eq_dec Nat.eq_dec sh [length ps] then true else false)
+               then let '(d, e) := write_cells (pycast (vdtype v)) ps cells (vdata v) in (with_data v d, e)
+               else if negb (Nat.eqb (length sh) 1) then (v, Some ValueError)
+               else match cast_all (pycast (vdtype v)) cells with
+                    | Raise e => (v, Some e)
+                    | Ret cells' => match bcast_seq (length ps) sh cells' with
+                                    | None => (v, Some ValueError)
+                                    | Some cs => (with_data v (fst (write_cells (fun x => Ret x) ps cs (vdata v))), None)
+                                    end
+                    end
+           end) <> Some OtherError).
+    { intros r Hr. destruct r as [[sh cells]|e]; [|simpl; intros C; inversion C; subst; apply Hr; reflexivity].
+      destruct (list_eq_dec Nat.eq_dec sh [length ps]) as [Esh|Nsh].
+      - pose proof (write_cells_no_other (pycast (vdtype v)) (HP (vdtype v)) ps cells (vdata v)) as W.
+        destruct (write_cells (pycast (vdtype v)) ps cells (vdata v)) as [d e]. exact W.
+      - destruct (negb (Nat.eqb (length sh) 1)); [simpl; discriminate|].
+        pose proof (cast_all_no_other (pycast (vdtype v)) cells (HP (vdtype v))) as Cc.
+        destruct (cast_all (pycast (vdtype v)) cells) as [cells'|e]; [|simpl; intros C; inversion C; subst; apply Cc; reflexivity].
+        destruct (bcast_seq (length ps) sh cells'); simpl; discriminate. }
+    destruct value as [c|k items|a b c|sh dt cells].
+    - destruct (pycast (vdtype v) c) as [c'|e] eqn:E; simpl; [discriminate|]. intros C. inversion C; subst. exact (HP _ _ E).
+    - apply SEQ. apply as_array_no_other.
+    - apply SEQ. apply as_array_no_other.
+    - destruct (bcast_arr (length ps) sh cells) as [cs|]; [|simpl; discriminate].
+      pose proof (write_cells_no_other (arrcast dt (vdtype v)) (HA dt (vdtype v)) ps cs (vdata v)) as W.
+      destruct (write_cells (arrcast dt (vdtype v)) ps cs (vdata v)) as [d e]. exact W.
+  Qed.
+
+  Lemma assign_item_no_other v p value : snd (assign_item v p value) <> Some OtherError.
+  Proof.
+    unfold Container.assign_item.
+    destruct value as [c|k items|a b c|sh dt cells].
+    - destruct (pycast (vdtype v) c) as [c'|e] eqn:E; simpl; [discriminate|]. intros C. inversion C; subst. exact (HP _ _ E).
+    - destruct (vdtype v) eqn:D; simpl; intros C; inversion C as [C']; exact (HI _ C').
+    - destruct (vdtype v) eqn:D; simpl; intros C; inversion C as [C']; exact (HI _ C').
+    - assert (DEF : snd (match vdtype v with
+                         | DBool => match truthy (OArr sh dt cells) with
+                                    | Ret b => (with_data v (upd p (PBool b) (vdata v)), None)
+                                    | Raise e => (v, Some e)
+                                    end
+                         | _ => (v, Some ValueError)
+                         end) <> Some OtherError).
+      { destruct (vdtype v); try (simpl; discriminate).
+        pose proof (truthy_no_other (OArr sh dt cells)) as T. destruct (truthy (OArr sh dt cells)); simpl; [discriminate|].
+        intros C. inversion C; subst. apply T. reflexivity. }
+      destruct sh as [|d0 sh']; [|exact DEF].
+      destruct cells as [|c [|c2 r]]; try exact DEF.
+      destruct (arrcast dt (vdtype v) c) as [c'|e] eqn:E; simpl; [discriminate|]. intros C. inversion C; subst. exact (HA _ _ _ E).
+  Qed.
+
+  Lemma setattr_var_no_other name value s : InvV s -> snd (setattr_var name value s) <> Raise OtherError.
+  Proof.
+    intros [_ [_ HV]]. unfold Container.setattr_var.
+    destruct (assoc name (vars s)) as [v|] eqn:A; [|simpl; discriminate].
+    destruct (is_sequence value).
+    - pose proof (as_array_no_other value) as AA.
+      destruct (as_array value) as [[sh cells]|e]; [|simpl; intros C; inversion C; subst; apply AA; reflexivity].
+      pose proof (cast_all_no_other (pycast (vdtype v)) cells (HP (vdtype v))) as Cc.
+      destruct (cast_all (pycast (vdtype v)) cells) as [cells'|e]; [|simpl; intros C; inversion C; subst; apply Cc; reflexivity].
+      destruct (negb (Nat.eqb (length sh) 1) || negb (Nat.eqb (hd 0 sh) (n_of s)))%bool; simpl; discriminate.
+    - rewrite (HV _ _ A).
+      pose proof (assign_inplace_no_other v (seq 0 (n_of s)) value) as AI.
+      destruct (assign_inplace v (seq 0 (n_of s)) value) as [v' [e|]]; simpl in *; [|discriminate].
+      intros C. inversion C; subst. apply AI. reflexivity.
+  Qed.
+
+  Lemma bind_no_other (f g : state -> res) (P : state -> Prop) s :
+    P s -> (forall s0, P s0 -> snd (f s0) <> Raise OtherError /\ P (fst (f s0))) ->
+    (forall s0, P s0 -> snd (g s0) <> Raise OtherError) ->
+    snd (match f s with (s', Ret _) => g s' | (s', Raise e) => (s', Raise e) end) <> Raise OtherError.
+  Proof.
+    intros Ps F G. destruct (F s Ps) as [F1 F2]. destruct (f s) as [s' [u|e]]; simpl in *; [apply G; exact F2|exact F1].
+  Qed.
+
+  Lemma setattr_var_invV name value s : InvV s -> InvV (fst (setattr_var name value s)).
+  Proof. apply good_invV. apply setattr_var_good. Qed.
+
+  Lemma set_rows_arr_no_other src nms : forall rws s, InvV s -> snd (set_rows_arr src nms rws s) <> Raise OtherError.
+  Proof.
+    induction nms as [|x nms IH]; intros rws s I; simpl; [discriminate|].
+    destruct rws as [|r rr]; [simpl; discriminate|].
+    destruct (assoc x (vars s)) as [v|]; [|simpl; discriminate].
+    pose proof (cast_all_no_other (arrcast src (vdtype v)) r (HA src (vdtype v))) as Cc.
+    destruct (cast_all (arrcast src (vdtype v)) r) as [r'|e]; [|simpl; intros C; inversion C; subst; apply Cc; reflexivity].
+    pose proof (setattr_var_no_other x (OArr [length r'] (vdtype v) r') s I) as S1.
+    pose proof (setattr_var_invV x (OArr [length r'] (vdtype v) r') s I) as S2.
+    destruct (setattr_var x (OArr [length r'] (vdtype v) r') s) as [s' [u|e]]; simpl in *; [apply IH; exact S2|exact S1].
+  Qed.
+
+  Lemma natural_no_other value : natural value <> Raise OtherError.
+  Proof.
+    unfold Container.natural. pose proof (as_array_no_other value) as AA.
+    destruct (as_array value) as [[sh cells]|e]; [|intros C; inversion C; subst; apply AA; reflexivity].
+    destruct value; try discriminate;
+      (pose proof (cast_all_no_other (pycast (infer cells)) cells (HP (infer cells))) as Cc;
+       destruct (cast_all (pycast (infer cells)) cells); [discriminate|intros C; inversion C; subst; apply Cc; reflexivity]).
+  Qed.
+
+  Lemma set_rows_full_no_other value nms : forall s, InvV s -> snd (set_rows_full nms value s) <> Raise OtherError.
+  Proof.
+    induction nms as [|x nms IH]; intros s I; simpl; [discriminate|].
+    destruct (assoc x (vars s)) as [v|]; [|simpl; discriminate].
+    pose proof (natural_no_other value) as NN.
+    destruct (natural value) as [[[src sh] cells]|e]; [|simpl; intros C; inversion C; subst; apply NN; reflexivity].
+    destruct (bcast_arr (prod_shape (vshape v)) sh cells) as [cs|]; [|simpl; discriminate].
+    pose proof (cast_all_no_other (arrcast src (vdtype v)) cs (HA src (vdtype v))) as Cc.
+    destruct (cast_all (arrcast src (vdtype v)) cs) as [cs'|e]; [|simpl; intros C; inversion C; subst; apply Cc; reflexivity].
+    pose proof (setattr_var_no_other x (OArr (vshape v) (vdtype v) cs') s I) as S1.
+    pose proof (setattr_var_invV x (OArr (vshape v) (vdtype v) cs') s I) as S2.
+    destruct (setattr_var x (OArr (vshape v) (vdtype v) cs') s) as [s' [u|e]]; simpl in *; [apply IH; exact S2|exact S1].
+  Qed.
+
+  Lemma values_setter_no_other value s : Inv s -> snd (values_setter value s) <> Raise OtherError.
+  Proof.
+    intros I. pose proof (proj1 I) as IV. unfold Container.values_setter.
+    destruct value as [c|k items|a b c|sh dt cells]; try (apply set_rows_full_no_other; exact IV).
+    destruct (values_stack s I) as [VS _]. rewrite VS.
+    destruct (list_eq_dec Nat.eq_dec sh _) as [E|N]; [|simpl; discriminate].
+    subst sh. destruct (row_names s) as [|x r]; [simpl; discriminate|].
+    apply set_rows_arr_no_other. exact IV.
+  Qed.
+
+  Lemma obj_setattr_no_other name value s : Inv s -> snd (obj_setattr name value s) <> Raise OtherError.
+  Proof.
+    intros I. unfold Container.obj_setattr.
+    destruct (String.eqb name "strict").
+    - pose proof (truthy_no_other value) as T. destruct (truthy value); simpl; [discriminate|]. intros C. inversion C; subst. apply T. reflexivity.
+    - destruct (String.eqb name "values"); [apply values_setter_no_other; exact I|].
+      destruct (String.eqb name "size" || String.eqb name "nbytes")%bool; [simpl; discriminate|].
+      match goal with |- context [if ?c then _ else _] => destruct c end; simpl; discriminate.
+  Qed.
+
+  Lemma add_attribute_no_other name value s : Inv s -> snd (add_attribute name value s) <> Raise OtherError.
+  Proof.
+    intros I. unfold Container.add_attribute.
+    destruct (mem name (index s)); [simpl; discriminate|].
+    destruct (reg_mem name (registry s)); [simpl; discriminate|].
+    pose proof (obj_setattr_no_other name value s I) as O.
+    destruct (obj_setattr name value s) as [s' [u|e]]; simpl in *; [discriminate|exact O].
+  Qed.
+
+  Lemma setattr_no_other name value hint s : Inv s -> snd (setattr name value hint s) <> Raise OtherError.
+  Proof.
+    intros I. unfold Container.setattr.
+    match goal with |- context [if ?c then _ else _] => destruct c end.
+    - destruct (alternatives hint (row_names s)) as [|a [|b r]]; simpl; discriminate.
+    - destruct (negb (mem name (index s))).
+      + destruct (reg_mem name (registry s)); [apply obj_setattr_no_other | apply add_attribute_no_other]; exact I.
+      + apply setattr_var_no_other. exact (proj1 I).
+  Qed.
+
+  Lemma replace_values_no_other kvs : forall s, Inv s -> snd (replace_values kvs s) <> Raise OtherError.
+  Proof.
+    induction kvs as [|[k v] kvs IH]; intros s I; [simpl; discriminate|].
+    change (replace_values ((k, v) :: kvs) s) with
+      (match setitem (KName k) v s with (s1, Ret _) => replace_values kvs s1 | (s1, Raise e1) => (s1, Raise e1) end).
+    assert (S1 : snd (setitem (KName k) v s) <> Raise OtherError).
+    { unfold Container.setitem. destruct (negb (mem k (index s))); [simpl; discriminate|]. apply setattr_no_other. exact I. }
+    pose proof (step_preserves_inv pycast arrcast infer astype_dt itemseq_exn (SetItem (KName k) v) s I) as S2.
+    change (Inv (fst (setitem (KName k) v s))) in S2.
+    destruct (setitem (KName k) v s) as [s' [u|e]]; simpl in *; [apply IH; exact S2|exact S1].
+  Qed.
+
+  Lemma base_add_variable_no_other name value dt s : snd (base_add_variable name value dt s) <> Raise OtherError.
+  Proof.
+    unfold Container.base_add_variable.
+    destruct (mem name (index s)); [simpl; discriminate|].
+    pose proof (natural_no_other value) as NN.
+    assert (FIRST : (if is_sequence value
+                     then match natural value with
+                          | Raise e => Raise e
+                          | Ret (d, sh, cells) => Ret (d, prod_shape sh, cells)
+                          end
+                     else match natural value with
+                          | Raise e => Raise e
+                          | Ret (d, sh, cells) => match bcast_arr (n_of s) sh cells with
+                                                  | None => Raise ValueError
+                                                  | Some cs => Ret (d, n_of s, cs)
+                                                  end
+                          end) <> Raise OtherError).
+    { destruct (is_sequence value); destruct (natural value) as [[[d sh] cells]|e]; try discriminate;
+        try (intros C; inversion C; subst; apply NN; reflexivity).
+      destruct (bcast_arr (n_of s) sh cells); discriminate. }
+    match goal with |- context [match ?x with Ret _ => _ | Raise _ => _ end] => destruct x as [[[d0 m0] cells0]|e] end;
+      [|simpl; intros C; inversion C; subst; apply FIRST; reflexivity].
+    destruct dt as [r|].
+    - pose proof (cast_all_no_other (arrcast d0 (astype_dt d0 cells0 r)) cells0 (HA d0 _)) as Cc.
+      destruct (cast_all (arrcast d0 (astype_dt d0 cells0 r)) cells0) as [cs|e]; [|simpl; intros C; inversion C; subst; apply Cc; reflexivity].
+      destruct (negb (Nat.eqb m0 (n_of s))); simpl; discriminate.
+    - destruct (negb (Nat.eqb m0 (n_of s))); simpl; discriminate.
+  Qed.
+
+  Lemma add_variable_no_other name value dt s : snd (add_variable name value dt s) <> Raise OtherError.
+  Proof.
+    unfold Container.add_variable.
+    destruct (kind s); [apply base_add_variable_no_other| |];
+      (pose proof (base_add_variable_no_other name value (match dt with None => dflt s | Some _ => dt end) s) as B;
+       destruct (base_add_variable name value (match dt with None => dflt s | Some _ => dt end) s) as [s' [u|e]]; simpl in *; [discriminate|exact B]).
+  Qed.
+
+  (* the only operation that can leave the model: an item assignment addressed at a name that is no variable *)
+  Theorem other_error_only_for_hidden_names o s :
+    Inv s -> snd (step o s) = Raise OtherError ->
+    exists name v, assoc name (vars s) = None /\
+      ((exists l, o = SetItem (KLabel name l) v) \/ (exists a b st, o = SetItem (KSlice name a b st) v)).
+  Proof.
+    intros I H. destruct o as [name v dt|name v hint|k v|kvs|name v]; simpl in H.
+    - exfalso. exact (add_variable_no_other name v dt s H).
+    - exfalso. exact (setattr_no_other name v hint s I H).
+    - destruct k as [name|name l|name a b st| |]; try (simpl in H; discriminate H).
+      + exfalso. unfold Container.setitem in H. destruct (negb (mem name (index s))); [discriminate H|].
+        exact (setattr_no_other name v None s I H).
+      + unfold Container.setitem in H.
+        destruct (locate (span s) l) as [p|e] eqn:L; [|exfalso; simpl in H; inversion H; subst; apply locate_err in L; discriminate L].
+        destruct (assoc name (vars s)) as [x|] eqn:A.
+        * exfalso. pose proof (assign_item_no_other x p v) as AI.
+          destruct (Container.assign_item pycast arrcast itemseq_exn x p v) as [x' [e|]]; simpl in *; [|discriminate H].
+          inversion H; subst. apply AI. reflexivity.
+        * exists name, v. split; [exact A|]. left. exists l. reflexivity.
+      + unfold Container.setitem in H.
+        destruct (resolve_slice (span s) a b st) as [[[sl el] stp]|e] eqn:R;
+          [|exfalso; simpl in H; inversion H; subst; apply resolve_slice_err in R; destruct R; discriminate].
+        destruct (assoc name (vars s)) as [x|] eqn:A.
+        * exfalso. rewrite (proj2 (proj2 (proj1 I)) _ _ A) in H.
+          destruct (slice_positions (n_of s) sl el stp) as [ps|]; [|simpl in H; discriminate H].
+          pose proof (assign_inplace_no_other x ps v) as AI.
+          destruct (Container.assign_inplace pycast arrcast x ps v) as [x' [e|]]; simpl in *; [|discriminate H].
+          inversion H; subst. apply AI. reflexivity.
+        * exists name, v. split; [exact A|]. right. exists a, b, st. reflexivity.
+    - exfalso. exact (replace_values_no_other kvs s I H).
+    - exfalso. exact (add_attribute_no_other name v s I H).
+  Qed.
+End NoOther.
+
